@@ -21,6 +21,11 @@ PROPAGATE = {'core::iter::traits::collect::IntoIterator::into_iter', 'core::iter
              'core::iter::traits::iterator::Iterator::collect', 'core::iter::traits::iterator::Iterator::by_ref', 'core::iter::traits::iterator::Iterator::filter',
              'core::iter::traits::iterator::Iterator::cloned', 'core::iter::traits::iterator::Iterator::copied', 'core::ops::deref::Deref::deref', 'core::ops::deref::DerefMut::deref_mut',
              'core::clone::Clone::clone', 'core::ops::drop::Drop::drop', 'core::mem::drop'}
+ORDER_FREE_HASH = {'new', 'with_capacity', 'with_hasher', 'with_capacity_and_hasher', 'default', 'insert', 'try_insert', 'get', 'get_mut', 'get_key_value', 'contains_key', 'contains',
+                   'remove', 'remove_entry', 'take', 'replace', 'len', 'is_empty', 'entry', 'clear', 'reserve', 'try_reserve', 'shrink_to_fit', 'shrink_to', 'capacity', 'hasher',
+                   'is_subset', 'is_superset', 'is_disjoint', 'get_or_insert_with', 'get_many_mut'}
+ORDER_FREE_TRAITS = {'core::default::Default', 'core::clone::Clone', 'core::cmp::PartialEq', 'core::cmp::Eq', 'core::ops::index::Index', 'core::iter::traits::collect::Extend',
+                     'core::iter::traits::collect::FromIterator', 'core::ops::drop::Drop', 'core::ops::deref::Deref', 'core::ops::deref::DerefMut', 'core::borrow::Borrow', 'core::convert::AsRef'}
 ORDER_FREE = {'alloc::vec::Vec::is_empty', 'alloc::vec::Vec::len', 'slice::len', 'slice::is_empty'}
 SORTS = {'slice::sort_by_key', 'slice::sort', 'slice::sort_unstable', 'slice::sort_unstable_by_key', 'slice::sort_by_cached_key', 'slice::sort_by', 'slice::sort_unstable_by'}
 DENY_PREFIX = ('core::sync::atomic', 'std::sync::', 'core::cell::', 'std::thread', 'std::time', 'std::env', 'std::process', 'std::thread', 'std::fs', 'std::net', 'std::hash::random', 'std::collections::hash::map::RandomState',
@@ -45,12 +50,25 @@ def sources(cr, body):
         if c is None:
             continue
         is_src = False
-        if 'impl_self' in c and 'impl_trait' not in c and is_hash_type(cr, c['impl_self']) and c['name'] in ITER_METHODS:
-            is_src = True
-        if key == 'core::iter::traits::collect::IntoIterator::into_iter' and c['args'] and is_hash_type(cr, c['args'][0]):
-            is_src = True
+        if c.get('local'):
+            continue          # a function of the generator that is handed a map: its own body is analysed
+        if 'impl_self' in c and 'impl_trait' not in c and is_hash_type(cr, c['impl_self']):
+            # inherent operations of the hash containers: everything that is not a point operation exposes the order
+            # (iter, keys, values, drain, retain, difference, union, intersection, symmetric_difference, extract_if, ...)
+            is_src = c['name'] not in ORDER_FREE_HASH
+        elif c.get('args'):
+            gen = c['args']
+            if is_hash_type(cr, gen[0]):
+                # a trait method with a hash container as Self
+                tr = key.rsplit('::', 1)[0]
+                is_src = tr not in ORDER_FREE_TRAITS
+            elif any(is_hash_type(cr, a) for a in gen[1:]):
+                # a hash container handed to a generic consumer: Vec::extend(set), Vec::from_iter(map), chain / zip with a set ...
+                is_src = True
         if is_src:
-            out.append((blk, key, body.call_term(t, blk)))
+            # `dest.extend(set)`: the data does not come back as the call's value, it lands in the receiver
+            sink = c['name'] in ('extend', 'extend_one', 'extend_reserve', 'for_each', 'try_for_each') and not is_hash_type(cr, c['args'][0]) if c.get('args') else False
+            out.append((blk, key, body.call_term(t, blk), sink))
     return out
 
 def is_getter(cr, path):
@@ -120,11 +138,13 @@ def check_crate(cr, ctx, label):
                 if st['s'] == 'assign' and st['rv']['r'] == 'cast' and 'Expose' in st['rv']['kind']:
                     ctx.violation('denylist', None, fn, '%s casts a pointer to an integer' % fn, key='C17/denylist-cast/%s/%s' % (label, fn), construct=fn)
         # ---- order taint
-        for blk, key, T in sources(cr, body):
+        for blk, key, T, sink in sources(cr, body):
             n_sites += 1
             where = '%s bb%d (%s)' % (fn, blk, key.split('::')[-1])
             def bad(what, kind='refuted'):
                 ctx.violation('order-taint', None, fn, 'hash-map iteration at %s: %s' % (where, what), key='C17/order-taint/%s/%s' % (label, fn), construct=fn, kind=kind)
+            if sink:
+                bad('a hash container is consumed by %s, which stores its elements in hash order into the receiver; the rule set does not follow the order through it' % key, 'unrecognised'); continue
             ok = True
             sorts = []
             for b2, k2, c2, t2 in body.calls():
@@ -196,7 +216,7 @@ def check_crate(cr, ctx, label):
     return n_sites
 
 def fixture_stage():
-    st = X.Stage('fixture-c17-v2')
+    st = X.Stage('fixture-c17-v3')
     def build(out):
         ws = X.scratch_dir('fx17')
         try:
@@ -230,11 +250,12 @@ def main(tier, seed, t0):
         fctx = Ctx(PROP)
         check_crate(Crate(ffp), fctx, 'fixture')
         flagged = {v['item'].split('::')[-1]: v['rule'] for v in fctx.violations}
-        want = {'bad_unsorted': 'order-taint', 'bad_conditional_sort': 'order-taint', 'bad_random_state': 'denylist', 'bad_time': 'denylist', 'bad_process_state': 'denylist', 'FIRST': 'process-state'}
+        want = {'bad_unsorted': 'order-taint', 'bad_conditional_sort': 'order-taint', 'bad_random_state': 'denylist', 'bad_time': 'denylist', 'bad_process_state': 'denylist', 'FIRST': 'process-state',
+                'bad_set_difference': 'order-taint', 'bad_extend_from_set': 'order-taint', 'bad_debug_format': 'order-taint'}
         for k, r in want.items():
             if flagged.get(k) != r:
                 ctx.error('positive fixture %s not flagged by %s (got %s): the rule is broken' % (k, r, flagged.get(k)))
-        if 'good_sorted' in flagged or 'GOOD_TABLE' in flagged:
+        if 'good_sorted' in flagged or 'GOOD_TABLE' in flagged or 'good_point_ops' in flagged:
             ctx.error('a negative fixture was flagged: %s' % flagged)
         ctx.sample({'fixtures_flagged': flagged})
     ctx.programs = {'enum_tools'}
